@@ -115,6 +115,8 @@ def run_check(prop, lens, args, seed, known, t0):
             first_bad[idx] = res
 
     tasks = [{"seed": world.mix(seed, prop, tier, i)} for i in range(runs)]
+    if args.only_run is not None:
+        tasks = [{"seed": world.mix(seed, prop, tier, args.only_run)}]
     cap = getattr(lens, "WALL_CAP", {}).get(tier) if hasattr(lens, "WALL_CAP") else None
     results = world.run_many(cli._run_task, tasks, jobs=jobs, timeout=60, on_result=on_result, wall_cap=cap)
     for idx in sorted(first_bad):
